@@ -2,6 +2,8 @@
 This module maintains a global list of generated IDs.
 """
 
+from .. import verif_hooks as _verif_hooks
+
 # Mapping from base prefix to the last assigned id
 _ids: dict[str, int] = {}
 
@@ -11,6 +13,8 @@ def next_id(base: str = "") -> int:
     id_val = _ids.get(base)
     id_val = 1 if id_val is None else id_val + 1
     _ids[base] = id_val
+    if _verif_hooks.enabled:
+        _verif_hooks.emit("next_id", base=base, id=id_val)
     return id_val
 
 
